@@ -4,7 +4,12 @@ passes and single best-move calls with arbitrary window arguments -- compared wi
    implementation's own candidate positions (model case 'OP'),
  * every op incl. the passes: value() equals the from-scratch wirelength of the exported placement with the
    orientation frozen at construction (model 'HP'), value never increases, the exported placement is
-   legal (proved checker legalb, model 'LC'), DetailedPlacer::check() passes, nothing throws."""
+   legal (proved checker legalb, model 'LC'), DetailedPlacer::check() passes, nothing throws,
+ * every call of runShiftsOnCells made by a driven shift op (ops 5 and 7), when /repo carries the hook
+   coloquinte_verif_shift_hook: the min-cost-flow network the C++ built equals ShiftLp.shift_net on the state before the
+   call (multisets of labelled arcs, supplies), the extracted PROVED certificate checker ShiftLp.shift_cert_ok accepts
+   lemon's potentials and arc flows, and the positions written are potential(cell) - potential(fixed) (model 'SL',
+   ocaml/driver_shift.ml).  Without the hook commit no record is produced and res["lp"]["records"] == 0."""
 from tools import common
 from checks import legal_common as lc
 
@@ -57,6 +62,7 @@ def run_dopt(ctx, count, seed, modes=(0, 16)):
     hinp, hmap = [], []     # HP frozen-orientation wirelength
     linp, lmap = [], []     # LC legality
     sinp, smap = [], []     # SH shift constraints
+    pinp, pmap = [], []     # SL shift-pass linear programmes (one per runShiftsOnCells call, from the hook)
     for i, (l, out) in enumerate(zip(lines, impl)):
         if out.strip() == "NOLEG":
             res["noleg"] += 1
@@ -78,7 +84,12 @@ def run_dopt(ctx, count, seed, modes=(0, 16)):
                 minp.append("OP " + hp_case(cells, run_start, frozen, ntoks) + " %d " % len(run_ops) + " ".join(run_ops))
                 mmap.append((i, list(run_expect)))
                 run_ops.clear(); run_expect.clear()
-        for k, s in enumerate(segs[1:]):
+        k = -1
+        for s in segs[1:]:
+            if s.startswith("L "):
+                pinp.append("SL " + s[2:]); pmap.append((i, k))
+                continue
+            k += 1
             if s == "SKIP":
                 continue
             if s.startswith("THROW") or s in ("ABORT", "SEGV", "FPE", "SIGNAL") or s.startswith("DIED"):
@@ -118,6 +129,7 @@ def run_dopt(ctx, count, seed, modes=(0, 16)):
     hout, _, _ = common.run_both([driver], None, hinp)
     lout, _, _ = common.run_both([driver], None, linp)
     sout, _, _ = common.run_both([driver], None, sinp)
+    res["lp"] = lp_eval(pinp, pmap, lines)
     res["shift_fail"] = []; res["shifts_checked"] = len(sinp); res["shifts_moving"] = 0
     for (i, k, sel), o in zip(smap, sout):
         ok = o.split("|")[0].strip()
@@ -142,5 +154,50 @@ def run_dopt(ctx, count, seed, modes=(0, 16)):
     return res
 
 
+def lp_eval(pinp, pmap, lines):
+    """runs the shift-LP model driver on the hook records; classifies every record"""
+    lp = {"records": len(pinp), "moving": 0, "arcs": 0, "accepted": 0,
+          "net_diff": [], "cert_rejected": [], "dual_infeasible": [], "pos_diff": [], "shift_ok_fail": [], "value_rose": [], "driver_fail": []}
+    if not pinp:
+        return lp
+    sdriver = common.build_driver("shift")
+    pout, _, _ = common.run_both([sdriver], None, pinp, chunk=500)
+    for (i, k), rec, o in zip(pmap, pinp, pout):
+        head, _, detail = o.partition("|")
+        try:
+            f = {a: int(b) for a, b in (t.split("=") for t in head.split())}
+            f["net"], f["cert"], f["va"]
+        except (ValueError, KeyError):
+            lp["driver_fail"].append((lines[i], rec, "op %d: the model driver could not evaluate the record: %s" % (k, o[:200])))
+            continue
+        lp["moving"] += f["moved"]; lp["arcs"] += f["narcs"]
+        entry = (lines[i], rec, "op %d: %s|%s" % (k, head.strip(), detail[:400]))
+        if f["net"] == 1 and f["sup"] == 1 and f["cert"] == 1 and f["pos"] == 1:
+            lp["accepted"] += 1
+        if f["net"] != 1 or f["sup"] != 1:
+            lp["net_diff"].append(entry)
+        if f["cert"] != 1:
+            lp["cert_rejected"].append(entry)
+        if f["dual"] != 1:
+            lp["dual_infeasible"].append(entry)
+        if f["pos"] != 1:
+            lp["pos_diff"].append(entry)
+        if f["shiftok"] != 1:
+            lp["shift_ok_fail"].append(entry)
+        if f["va"] > f["vb"]:
+            lp["value_rose"].append((lines[i], rec, "op %d: x wirelength %d -> %d in one call of runShiftsOnCells; %s" % (k, f["vb"], f["va"], head.strip())))
+    return lp
+
+
+def lp_summary(lp):
+    out = {k: (len(v) if isinstance(v, list) else v) for k, v in lp.items()}
+    out["exercised"] = lp["records"] > 0
+    if not lp["records"]:
+        out["note"] = "no record: /repo does not carry the hook coloquinte_verif_shift_hook (verif hook commit on runShiftsOnCells); the certificate tie was not exercised"
+    return out
+
+
 def summary(res):
-    return {k: res[k] for k in ("runs", "noleg", "ops", "best_ops", "pass_ops", "accepted", "op_kinds")}
+    d = {k: res[k] for k in ("runs", "noleg", "ops", "best_ops", "pass_ops", "accepted", "op_kinds")}
+    d["shift_lp"] = lp_summary(res["lp"])
+    return d
